@@ -259,8 +259,7 @@ StepStmt(m, rest, s) ==
 
 StepEval(m, rest, e) ==
   CASE e.e = "lit" -> [m EXCEPT !.K = rest, !.V = Append(m.V, e.v)]
-    [] e.e = "plit" -> LET k == PO!SmallIntValue(e.elems) IN
-                       [m EXCEPT !.K = rest, !.V = Append(m.V, IF k >= 0 THEN IntV(k) ELSE Inexact)]
+    [] e.e = "plit" -> [m EXCEPT !.K = rest, !.V = Append(m.V, PoeticNum(PO!Digits(e.elems)))]
     [] e.e = "var" ->
          LET r == ReadVar(m.env, e.n) m1 == [m EXCEPT !.last = <<e.n>>] IN        \* the referent is set first, also on failure
          IF r[1] = "err" THEN Fail(m1) ELSE [m1 EXCEPT !.K = rest, !.V = Append(m.V, r[2])]
